@@ -253,6 +253,10 @@ func checkC09(p *Prog, r *Report) {
 			r.bad(rule, "top-level symlink reads its target", p.pos(hash.Pos()), fnName(hash), "PathHasher.hash never reads the link target of a top-level symlink")
 		} else {
 			written, lossy := false, ""
+			unasked := false
+			defer func() {
+				r.check(!unasked, "E3.symlink-target", "a link is hashed by its name only when the destination was found to be inside the repository", p.pos(rl.Pos()), fnName(hash), "the write of the destination is under a test on the destination itself", "the top-level symlink branch writes the link's destination string without having asked whether that destination lies inside the repository: a link from the repository to an absolute path outside it (a fixture under /srv, a system tool) is hashed by its name, so changing the file it points at changes no hash - a test whose data is such a link keeps reporting its cached pass")
+			}()
 			eachInstr(hash, false, func(_ *ssa.Function, i ssa.Instruction) {
 				a, ok := hashWriteArg(i)
 				if !ok {
@@ -271,6 +275,30 @@ func checkC09(p *Prog, r *Report) {
 					return
 				}
 				written = true
+				// writing only the destination *name* is right for a link that stays inside the repository (what it
+				// points at is hashed in its own right); whether it does must have been asked of the destination
+				if ins, ok := i.(ssa.Instruction); ok {
+					aboutDest := blockJustified(ins.Block(), func(f Fact) bool {
+						var ops []ssa.Value
+						switch v := f.V.(type) {
+						case *ssa.BinOp:
+							ops = []ssa.Value{v.X, v.Y}
+						case *ssa.Call:
+							ops = v.Call.Args
+						}
+						for _, op := range ops {
+							for _, res := range resultsOf(rl, 0) {
+								if op == res {
+									return true
+								}
+							}
+						}
+						return false
+					}, 4)
+					if !aboutDest {
+						unasked = true
+					}
+				}
 				for x := range sl {
 					if c, ok := x.(*ssa.Call); ok && lossyString[calleeName(&c.Call)] {
 						lossy = calleeName(&c.Call)
